@@ -268,15 +268,25 @@ def main(tier, replay):
         "activate": [varlink, "-A", "%s serve $VARLINK_ADDRESS" % vh, "bridge"],
         "bridge": [varlink, "-b", "%s -R %s bridge" % (varlink, resolver.address), "bridge"],
     }
+    # the same service behind an abstract and a TCP address, for `bridge --connect ADDRESS`
+    # (every address form is an address, whether or not it contains a slash)
+    svcs["connect-abstract"] = fakesvc.FakeService("abstract", make_handler("org.example.a"), name="verif-c18-%d" % os.getpid())
+    svcs["connect-tcp"] = fakesvc.FakeService("tcp", make_handler("org.example.a"))
+    modes_extra = {
+        "connect-abstract": [varlink, "bridge", "-C", svcs["connect-abstract"].address],
+        "connect-tcp": [varlink, "bridge", "-C", svcs["connect-tcp"].address],
+    }
     nseq = 60 if tier == "quick" else 3000
     rng = vlib.Rng(ctx.seed)
     try:
-        for mode, cmd in modes.items():
-            multi = mode in ("resolver", "bridge", "connect")
+        for mode, cmd in list(modes.items()) + list(modes_extra.items()):
+            multi = mode in ("resolver", "bridge") or mode.startswith("connect")
             for i in range(nseq):
                 beh = ["one-at-a-time", "pipelined", "segmented"][i % 3]
                 upgrade = (i % 4 == 3)
-                if mode == "connect":
+                if mode in modes_extra and i >= max(8, nseq // 4):
+                    break
+                if mode.startswith("connect"):
                     seq = gen_sequence(rng, ["org.example.a"], rng.range(2, 8), allow_getinfo=False)
                 elif multi:
                     seq = gen_sequence(rng, names, rng.range(2, 8), allow_getinfo=True)
@@ -351,8 +361,15 @@ def canon(frames):
             p["interfaces"][1:] = sorted(p["interfaces"][1:])
 
 
+def upkey(mode):
+    """the service object that receives an upgraded session in this bridge mode"""
+    if mode == "connect":
+        return "org.example.a"
+    return mode if mode.startswith("connect-") else "org.example.c"
+
+
 def case(ctx, mode, cmd, seq, beh, pay, same_write, table, resolver, std_addr, svcs, rng, retry=0):
-    multi = mode in ("resolver", "bridge", "connect")
+    multi = mode in ("resolver", "bridge") or mode.startswith("connect")
     # reference: direct connections
     expected = []
     try:
@@ -370,14 +387,14 @@ def case(ctx, mode, cmd, seq, beh, pay, same_write, table, resolver, std_addr, s
     nframes = sum(len(f) for f in expected)
     up_req = None
     if pay is not None:
-        up_iface = "org.example.a" if mode == "connect" else "org.example.c"
+        up_iface = "org.example.a" if mode.startswith("connect") else "org.example.c"
         up_req = {"method": ((up_iface + ".Upgrade") if multi else "org.verif.t.Upgrade"), "upgrade": True, "parameters": ({} if multi else {"token": "up"})}
     targets = len(set(n for n, _ in seq))
     desc = {"mode": mode, "behaviour": beh, "requests": [r for _, r in seq], "upgrade_payload": (len(pay) if pay is not None else None), "payload_in_same_write": same_write}
     ctx.case((mode, json.dumps(desc["requests"], sort_keys=True)[:400], beh, desc["upgrade_payload"], same_write) if (targets >= 2 or pay is not None) else None)
     ctx.count("bridge_sessions")
     if pay is not None:
-        svcs["org.example.a" if mode == "connect" else "org.example.c"].clear()
+        svcs[upkey(mode)].clear()
     b = Bridge(cmd)
     got = []
     ok = True
@@ -456,12 +473,12 @@ def case(ctx, mode, cmd, seq, beh, pay, same_write, table, resolver, std_addr, s
             echo = b.read_bytes(len(want_echo), timeout=15)
             cls = "payload-in-same-write" if same_write else "payload-after-reply"
             if echo != want_echo:
-                recv = svcs["org.example.a" if mode == "connect" else "org.example.c"].raw() if multi else None
+                recv = svcs[upkey(mode)].raw() if multi else None
                 ctx.violation("c18:%s:upgraded-bytes-wrong:%s" % (mode, cls), dict(wit, message="client received %d of %d expected upgraded bytes; first bytes %r; service received %s of %d payload bytes" % (len(echo), len(want_echo), echo[:60], (len(recv) if recv is not None else "?"), len(pay)), stderr=b.err.decode("utf-8", "replace")[-800:]))
                 b.kill()
                 return
             if multi:
-                recv = svcs["org.example.a" if mode == "connect" else "org.example.c"].raw()
+                recv = svcs[upkey(mode)].raw()
                 if recv != pay:
                     ctx.violation("c18:%s:upgraded-bytes-to-service-wrong:%s" % (mode, cls), dict(wit, message="service received %d bytes, payload has %d" % (len(recv), len(pay))))
                     b.kill()
